@@ -44,6 +44,9 @@ pub struct C05 {
     /// the upstream reports an exact size_hint
     #[serde(default)]
     pub hinted: bool,
+    /// the consumer calls next() twice more after the end of the stream
+    #[serde(default)]
+    pub poll_after_end: bool,
 }
 
 pub fn f_val(x: u64) -> u64 {
@@ -169,13 +172,17 @@ impl Scenario for C05 {
             10 => *rng.pick(&[255usize, 256, 257, 512]),
             _ => rng.usize(0, max_n),
         };
-        let w = match rng.below(12) {
-            0 => 0,
+        let w = match rng.below(400) {
+            0..=32 => 0,
+            // extreme worker counts (u8 range), only with tiny inputs: rare
+            33 => 255,
+            34 => 16,
             _ => rng.range(1, 6) as u8,
         };
+        let n = if w >= 16 { n.min(4) } else { n };
         let shape = match rng.below(10) {
             0..=4 => Shape::Pipe,
-            5..=6 => Shape::PipeBuffered(rng.usize(0, 4)),
+            5..=6 => Shape::PipeBuffered(if rng.chance(0.05) { *rng.pick(&[16usize, 100]) } else { rng.usize(0, 4) }),
             7 => Shape::PipePipe(rng.range(0, 4) as u8),
             8 => Shape::Inference(rng.usize(0, 3), rng.usize(1, 5), *rng.pick(&[0usize, 8, 12, 20])),
             _ => Shape::BufferedPipe(rng.usize(0, 4)),
@@ -184,7 +191,8 @@ impl Scenario for C05 {
         let src_delay = if rng.chance(0.3) { delays(&mut rng, n) } else { vec![0; n] };
         let stall = if rng.chance(0.3) { delays(&mut rng, n) } else { vec![0; n] };
         let hinted = rng.chance(0.5);
-        C05 { run_seed, mode: SMode::draw(&mut rng), n, w, shape, fn_delay, src_delay, stall, hinted }
+        let poll_after_end = rng.chance(0.3);
+        C05 { run_seed, mode: SMode::draw(&mut rng), n, w, shape, fn_delay, src_delay, stall, hinted, poll_after_end }
     }
 
     fn run_seed(&self) -> u64 {
@@ -316,6 +324,17 @@ impl Scenario for C05 {
                 }
             }
             rt::log(Kind::RecvEnd, k as u64, 0);
+            if sc.poll_after_end {
+                // an exhausted iterator stays exhausted (and must not block)
+                for _ in 0..2 {
+                    if let Some(v) = it.next() {
+                        rt::log(Kind::Recv, k as u64, v);
+                        res2.lock().unwrap().push(v);
+                        k += 1;
+                    }
+                }
+                rt::log(Kind::Note, 3, 0);
+            }
             drop(it);
             rt::wait_threads_exit();
         });
